@@ -298,7 +298,7 @@ impl<'a> Parser<'a> {
         };
 
         if node.has_comment() {
-            node.update_comment(token::comment_body(&mut self.reader));
+            node.update_comment(token::comment_body(&mut self.reader)?);
         }
 
         node.update_bufs(&self.const_buf, self.symbol_buf.borrow(), &self.node_buf);
